@@ -46,10 +46,8 @@ func c22Ref(in c22In) map[PeerConnectionState]bool {
 	case ice == ICEConnectionStateUnknown || dtls == DTLSTransportStateUnknown:
 		return nil // not a state of a transport; nothing demanded
 	case ice == ICEConnectionStateDisconnected:
-		if dtls == DTLSTransportStateConnecting {
-			return one(PeerConnectionStateDisconnected, PeerConnectionStateConnecting)
-		}
-
+		// The property fixes the order: closed, failed, then disconnected before new/connected/connecting,
+		// so a DTLS handshake in flight does not mask a disconnected ICE transport.
 		return one(PeerConnectionStateDisconnected)
 	}
 	dtlsIdle := dtls == DTLSTransportStateNew || dtls == DTLSTransportStateClosed
